@@ -62,7 +62,8 @@ impl MemoryBlobStore {
 
     /// Create a memory blob store from existing data
     pub fn from_data(data: HashMap<RecordId, Vec<u8>>) -> Self {
-        let next_id = data.keys().max().map(|&id| id + 1).unwrap_or(1);
+        // the largest id may be u32::MAX: the counter wraps, put() skips ids that are taken
+        let next_id = data.keys().max().map(|&id| id.wrapping_add(1)).unwrap_or(1);
         let mut stats = BlobStoreStats::new();
 
         // Initialize stats from existing data
@@ -137,7 +138,15 @@ impl BlobStore for MemoryBlobStore {
     }
 
     fn put(&mut self, data: &[u8]) -> Result<RecordId> {
-        let id = self.next_record_id();
+        // The id counter can wrap (from_data with ids near u32::MAX): never hand out the id of a
+        // record that is still stored - that would silently overwrite it.
+        if self.data.len() > u32::MAX as usize {
+            return Err(ZiporaError::invalid_data("record id space exhausted"));
+        }
+        let mut id = self.next_record_id();
+        while self.data.contains_key(&id) {
+            id = self.next_record_id();
+        }
         let blob_data = data.to_vec();
         self.data.insert(id, blob_data);
         self.stats.record_put(data.len());
